@@ -111,7 +111,7 @@ def operator_minus(i):
 @builtin('add.period$')
 def add_period(i):
     s = i.pop()
-    if s and not s.rstrip('}')[-1] in '.?!':
+    if s and not s.rstrip('}').endswith(('.', '?', '!')):
         s += '.'
     i.push(s)
 
